@@ -71,6 +71,9 @@ pub enum RemoteMode {
     Serve,
     /// Never answer (the local open times out).
     Stall,
+    /// Abort the negotiation of every inbound substream with an I/O error: send the first bytes of a
+    /// multistream-select frame and end the stream; the connection stays healthy.
+    Truncate,
 }
 
 /// Everything observed so far.
@@ -92,6 +95,7 @@ pub struct Report {
 struct RemoteShared {
     supported: Mutex<Vec<ProtocolName>>,
     stall: AtomicBool,
+    truncate: AtomicBool,
     /// inbound streams the remote accepted (kept alive)
     accepted: AtomicUsize,
 }
@@ -209,6 +213,7 @@ impl ConnectionHarness {
         let shared = Arc::new(RemoteShared {
             supported: Mutex::new(names.clone()),
             stall: AtomicBool::new(false),
+            truncate: AtomicBool::new(false),
             accepted: AtomicUsize::new(0),
         });
         let sh = shared.clone();
@@ -221,6 +226,14 @@ impl ConnectionHarness {
                         Some(Ok(stream)) => {
                             if sh.stall.load(Ordering::SeqCst) {
                                 kept.push(stream);
+                                continue;
+                            }
+                            if sh.truncate.load(Ordering::SeqCst) {
+                                let mut stream = stream;
+                                tokio::spawn(async move {
+                                    let _ = stream.write_all(&[0x13, b'/', b'm', b'u']).await;
+                                    let _ = stream.close().await;
+                                });
                                 continue;
                             }
                             let supported: Vec<String> =
@@ -386,6 +399,7 @@ impl ConnectionHarness {
         *self.remote.supported.lock().unwrap() =
             supported.iter().map(|q| self.names[*q].clone()).collect();
         self.remote.stall.store(mode == RemoteMode::Stall, Ordering::SeqCst);
+        self.remote.truncate.store(mode == RemoteMode::Truncate, Ordering::SeqCst);
     }
 
     /// The remote opens a substream. `protocol`: index of a local protocol, or `None` for a
